@@ -763,8 +763,9 @@ func (s *Server) runElection(id string, elecID *spb.Uint128) (*spb.ModifyRespons
 	}
 
 	verifGate("elec.stored", id)
-	s.elecMu.RLock()
-	defer s.elecMu.RUnlock()
+	// The election state is modified below, hence hold the write lock.
+	s.elecMu.Lock()
+	defer s.elecMu.Unlock()
 	nm, _, err := isNewMaster(elecID, s.curElecID)
 	if err != nil {
 		return nil, err
